@@ -189,6 +189,14 @@ func renderExpr(toks []tok, lits []dec) (string, error) {
 			case "r":
 				li++
 				st = append(st, strconv.QuoteRune(rune(t.N)))
+			case "rx":
+				st = append(st, fmt.Sprintf(`'\x%02x'`, t.N))
+			case "ro":
+				st = append(st, fmt.Sprintf(`'\%03o'`, t.N))
+			case "ru":
+				st = append(st, fmt.Sprintf(`'\u%04x'`, t.N))
+			case "rc":
+				st = append(st, "'"+string(rune(t.N))+"'")
 			case "f":
 				st = append(st, map[int]string{1: "1.0", 2: "0.5", 3: "2.5e3"}[t.N])
 			case "h":
